@@ -1036,7 +1036,8 @@ class StructOf(DataType):
             result = dict(previous or {})
             for key, val in value.items():
                 if val is not None:  # goodie: allow None instead of missing key
-                    result[key] = self.members[key].validate(val)
+                    # pass the previous value of the member (for nested structs with optional members)
+                    result[key] = self.members[key].validate(val, result.get(key))
         except Exception as e:
             errcls = RangeError if isinstance(e, RangeError) else WrongTypeError
             raise errcls('struct element %s is invalid' % key) from e
